@@ -7,8 +7,8 @@ to end with `T idx` slots, the chunks `≥ N` own nothing and are nobody's desti
 The profile is preserved by every commit, so when nothing is pending any more the stable counts
 *are* the profile.
 -/
-namespace Um.Broker
-open Um Um.Slots
+namespace Um.Broker.Scale
+open Um Um.Slots Um.Broker
 
 structure Profile (T : Nat → Nat) (N : Nat) (c : Cluster) : Prop where
   disj : ProjInv c
@@ -110,7 +110,7 @@ theorem coreChain_profile {T : Nat → Nat} {N : Nat} {name : String} {s s' : St
     (hch : CoreChain name s k s') {c : Cluster} (hf : s.findCluster name = some c) (hinv : CommitInv c)
     (hprof : Profile T N c) :
     ∃ c', s'.findCluster name = some c' ∧ CommitInv c' ∧ Profile T N c' ∧
-      c.pending.length = c'.pending.length + k := by
+      (Cluster.pending c).length = (Cluster.pending c').length + k := by
   induction hch generalizing c with
   | nil s => exact ⟨c, hf, hinv, hprof, rfl⟩
   | @cons s0 s1 s2 k0 ranges epoch h _ ih =>
@@ -181,4 +181,4 @@ theorem balanced_of_profile {T : Nat → Nat} {N : Nat} {c : Cluster} (hprof : P
       exact hprof.tail (N + j) ch hj (by omega)
   exact ⟨⟨(Cluster.isMigrating_eq_false_iff c).mpr hidle, N, hN, hshape⟩, hshape⟩
 
-end Um.Broker
+end Um.Broker.Scale
